@@ -95,7 +95,7 @@ def glyphsGlyphOrder (custom : Option (List String)) (file : List String) : List
 structure Glyph where
   name : String
   /-- `emit_to_binary` -/
-  «export» : Bool := true
+  exported : Bool := true
   codepoints : List Nat := []
   /-- component base names (`Glyph::component_names`) -/
   components : List String := []
@@ -114,7 +114,7 @@ def Table.set (t : Table) (g : Glyph) : Table := fun n => if n = g.name then som
 
 def Table.comps (t : Table) (n : String) : List String := ((t n).map (·.components)).getD []
 
-def Table.isExport (t : Table) (n : String) : Bool := ((t n).map (·.«export»)).getD false
+def Table.isExport (t : Table) (n : String) : Bool := ((t n).map (·.exported)).getD false
 
 /-! ### `prune_missing_components` (glyph.rs:229) -/
 
@@ -245,7 +245,16 @@ structure Final where
 def keptOrder (prelim : List String) (t : Table) : Option (List String) :=
   if prelim.all (fun n => (t n).isSome) then some (prelim.filter t.isExport) else none
 
-/-- glyph.rs:882-908 -/
+/-- glyph.rs:866-874: a glyph that still refers to a component outside the new order is decomposed
+    (in the context only; `original_glyphs` keeps the snapshot the next step looks at).
+    After `flattenAll` this only happens when the preliminary order omits an exported glyph. -/
+def decomposeDangling (kept : List String) (t : Table) : Table :=
+  kept.foldl (fun acc n =>
+    match acc n with
+    | some g => if g.components.any (· ∉ kept) then acc.set { g with components := [], hasContours := true } else acc
+    | none => acc) t
+
+/-- glyph.rs:882-908 (classification reads the snapshot `original_glyphs`, i.e. the table before `decomposeDangling`) -/
 def todoOf (preferSimple : Bool) (kept : List String) (t : Table) : List (Op × Glyph) :=
   kept.filterMap fun n =>
     match t n with
@@ -275,7 +284,7 @@ def finalOrder (s : Source) : Option Final :=
     let todo := todoOf s.preferSimple kept t1
     let n := todo.length
     match resolve (names.length + n + 1) ((n + 1) * (n + 1))
-        { table := t1, order := kept, pending := todo.map (·.2.name), todo } with
+        { table := decomposeDangling kept t1, order := kept, pending := todo.map (·.2.name), todo } with
     | none => none
     | some st => some (ensureNotdef { order := st.order, table := st.table })
 
